@@ -80,6 +80,14 @@ def run(ctx):
                 for bv in (0, 2, 3):     # (factors below 1 are demotions, not boosts: C03 checks their arithmetic)
                     extra.append(dict(entry="universal", limit=7000, nlp=nlp, fuzzy=False, thr=0, ponly=False, pboost=False, allplat=True, plats=[],
                                       nocross=False, boost=True, boostvar=bv, query="raw", raw=raw, corpus=corpus))
+    # a boosted word typed more than once (the factor multiplies every occurrence's contribution, it does not replace the count)
+    for raw in ("frobnicate frobnicate widget", "widget widget widget frobnicate", "frobnicate widget frobnicate widget frobnicate", "widget widget",
+                "frobnicate frobnicate frobnicate frobnicate number"):
+        for nlp in (False, True):
+            for bv in (0, 1, 2, 3):
+                for corpus in ("mix", "tie"):
+                    extra.append(dict(entry="universal", limit=7000, nlp=nlp, fuzzy=False, thr=0, ponly=False, pboost=False, allplat=True, plats=[],
+                                      nocross=False, boost=True, boostvar=bv, query="raw", raw=raw, corpus=corpus))
     # boosts on real words of the shipped database
     tr, info, ok, rej = engine.run_cases(ctx, scen + extra, ["C13"])
     for x in rej:
